@@ -71,8 +71,33 @@ func gen(t *rapid.T) Case {
 	c.Kind = rapid.SampledFrom(kinds).Draw(t, "kind")
 	switch c.Kind {
 	case "diff":
-		pairing := rapid.SampledFrom([]string{"nodatum", "datum", "datum", "datum"}).Draw(t, "pairing")
-		if pairing == "nodatum" {
+		pairing := rapid.SampledFrom([]string{"nodatum", "datum", "datum", "datum", "mirror"}).Draw(t, "pairing")
+		if pairing == "mirror" {
+			// two definitions that differ in the SIGN of one parameter only (false easting, false northing, or - where the
+			// usable region is wide enough to hold the position for both - the central meridian): as different as any two
+			// references, but equal in every magnitude
+			c.Dst = projkit.GenDef(t, projkit.Opts{OnlyDatum: true, WithAxis: true, Projs: []string{"merc", "lcc", "aea", "eqdc", "tmerc"}})
+			c.Lon, c.Lat = projkit.GenPosition(t, c.Dst)
+			c.Src = c.Dst
+			which := rapid.SampledFrom([]string{"x0", "y0", "lon0"}).Draw(t, "mirrorparam")
+			if which == "lon0" && (c.Dst.Proj == "tmerc" || math.Abs(c.Dst.Lon0) > 30 || c.Dst.Lon0 == 0) {
+				which = "x0"
+			}
+			switch which {
+			case "x0":
+				if c.Dst.X0 == 0 {
+					c.Dst.X0 = 500000
+				}
+				c.Src.X0 = -c.Dst.X0
+			case "y0":
+				if c.Dst.Y0 == 0 {
+					c.Dst.Y0 = 250000
+				}
+				c.Src.Y0 = -c.Dst.Y0
+			case "lon0":
+				c.Src.Lon0 = -c.Dst.Lon0
+			}
+		} else if pairing == "nodatum" {
 			// a definition without datum against the geographic system on the same ellipsoid
 			p := projkit.GenDef(t, projkit.Opts{NoDatum: true, Projs: []string{"merc", "lcc", "aea", "eqdc", "tmerc", "utm", "krovak"}})
 			g := p.GeographicOnSameDatum()
@@ -131,6 +156,41 @@ func gen(t *rapid.T) Case {
 	return c
 }
 
+// sameReference: the two definitions are one reference in two spellings (judged on the generated parameters alone).
+func sameReference(a, b projkit.Def) bool {
+	norm := func(d projkit.Def) (projkit.Def, float64, [7]float64, bool, float64, float64) {
+		pm := d.PMDegrees() + 0 // -0 -> +0
+		d.PM = ""
+		if d.Axis == "enu" {
+			d.Axis = ""
+		}
+		z := func(v *float64) { *v += 0 }
+		z(&d.Lon0)
+		z(&d.Lat0)
+		z(&d.Lat1)
+		z(&d.Lat2)
+		z(&d.X0)
+		z(&d.Y0)
+		tw, ok := d.ToWGS84()
+		ea, es := d.Ellipsoid()
+		// datum and ellipsoid are compared by value
+		d.DatumKind, d.Datum, d.Towgs, d.EllpsKind, d.Ellps, d.A, d.Rf = "", "", nil, "", "", 0, 0
+		d.OmitDefaults = false
+		return d, pm, tw, ok, ea, es
+	}
+	da, pma, ta, oka, aa, esa := norm(a)
+	db, pmb, tb, okb, ab, esb := norm(b)
+	if da.String() != db.String() || math.Abs(pma-pmb) > 1e-12 || oka != okb {
+		return false
+	}
+	for i := range ta {
+		if math.Abs(ta[i]-tb[i]) > 1e-12*math.Max(1, math.Abs(ta[i])) {
+			return false
+		}
+	}
+	return math.Abs(aa-ab) <= 1e-9 && math.Abs(esa-esb) <= 1e-15
+}
+
 func run(c Case) (v vkit.Verdict) {
 	v.Class(c.Kind)
 	switch c.Kind {
@@ -148,23 +208,11 @@ func run(c Case) (v vkit.Verdict) {
 		if differ {
 			v.Class("datum_shift")
 		}
-		na, nb := c.Src, c.Dst // +axis=enu is the default: spelled or not, the definitions are the same
-		if na.Axis == "enu" {
-			na.Axis = ""
-		}
-		if nb.Axis == "enu" {
-			nb.Axis = ""
-		}
-		sameRef := na.String() == nb.String()
-		if !sameRef {
-			// spelled differently but the same reference (+pm=-0 against +pm=0, a default written out, ...): decided by the
-			// library's own Equal, whose soundness is C20's business (Equal references must map every position identically)
-			if pa, e1 := proj.Parse(c.Src.String()); e1 == nil {
-				if pb, e2 := proj.Parse(c.Dst.String()); e2 == nil && pa.Equal(pb, 3) {
-					sameRef = true
-				}
-			}
-		}
+		// the same reference spelled differently (+axis=enu written out, +pm=-0 against +pm=0, a prime meridian by name
+		// against its value, a named datum against its own parameters): decided here, from the generated parameters, NOT by
+		// asking the library's Equal - a library that calls two different references equal is exactly what this case is
+		// there to notice
+		sameRef := sameReference(c.Src, c.Dst)
 		if sameRef {
 			// Equal references: Go short-circuits to the identity (exact), proj4js goes to WGS84 and back with the
 			// small-angle inverse Helmert (off by ~0.1 mm for 7-parameter datums); nothing to compare
